@@ -251,10 +251,12 @@ Definition class_member (ds : list defn) (d : defn) : bool :=
   | _ => match scope_kind (parent (d_scopes d)) ds with Some KClass => true | _ => false end
   end.
 
-(* fixes._iter_identifier_mentions *)
+(* fixes._iter_identifier_mentions: a member of a class counts only when its identifier is also
+   written as a plain Name somewhere *)
 Definition mentions (m : modl) : list mention :=
   map (fun o => Mention (Some (o_id o)) (o_name o)) (occs m)
-  ++ map (fun d => Mention (Some (d_id d)) (d_name d)) (filter (fun d => negb (class_member (defs m) d)) (defs m))
+  ++ map (fun d => Mention (Some (d_id d)) (d_name d))
+         (filter (fun d => negb (class_member (defs m) d) || mem (d_name d) (map o_name (occs m))) (defs m))
   ++ map (Mention None) (args m ++ others m).
 
 (* one pass of align_variable_names_with_convention: the (node, new name) pairs it yields *)
